@@ -79,8 +79,11 @@ class BehavioralRTLIRGeneratorL2( BehavioralRTLIRGeneratorL1 ):
     return super().visit_Call( node )
 
   def visit_Name( s, node ):
-    # temporary variable
-    if (not node.id in s.closure) and (not node.id in s.globals):
+    # A name bound inside the block (loop index, temporary variable) is
+    # local: it hides a global of the same name
+    is_local = node.id in s.loop_var_env or node.id in s.tmp_var_env or \
+               ( isinstance( node.ctx, ast.Store ) and node.id not in s.closure )
+    if is_local or ((not node.id in s.closure) and (not node.id in s.globals)):
       # check if is a LoopVar or not
       if node.id in s.loop_var_env:
         ret = bir.LoopVar( node.id )
